@@ -119,6 +119,12 @@ def case_lookup(prog, params):
         none = z3.And([z3.Not(c) for c, _ in choices])
         # a consistent tree: something inside P exists only if P is a directory
         pc = list(sc.pc) + [z3.Implies(eI.kind != ENV.K_ABSENT, isdir(eP))]
+        inside = root.concat(P) if params['slash'] else root.concat(P).concat(S('/'))
+        for e_ in sc.world['fs']['entries']:
+            if e_ is eP: continue
+            sw = MODELS.match_at_general(e_.path, 0, inside)
+            if sw is False: continue
+            pc.append(z3.Implies(z3.And(zb(sw), e_.kind != ENV.K_ABSENT), isdir(eP)))
         res['compared'] += 1
         checks = []
         body = crl.items[0].fields[3] if len(crl.items) == 1 else None
